@@ -3,10 +3,10 @@ CONSTANTS
   OpFacts <- SoundFacts
   Sizes <- SizesSmall
   ConstGas <- Const2
-  OtherGas <- Other2
+  OtherGas <- Other1
   Gives <- Gives2
   GasLimit = 6000
-  MaxOps = 5
+  MaxOps = 4
   MaxDepth = 2
 VIEW view
 INVARIANTS TypeOK MemoryPaid TotalMemoryPaid
